@@ -464,7 +464,7 @@ func streamCfg(spec string, starts int, small, manual, gen bool, ops string, nth
 	case "gen":
 		cfg = "SPECIFICATION Spec\n" + consts + "INVARIANTS EmitStims\nCHECK_DEADLOCK FALSE\n"
 	case "trace":
-		cfg = "SPECIFICATION TSpec\n" + consts + "CONSTRAINT HighWater\nINVARIANT TraceInv\nPOSTCONDITION Report\nCHECK_DEADLOCK FALSE\n"
+		cfg = "SPECIFICATION TSpec\n" + consts + "CONSTRAINT HighWater\nINVARIANT TraceInv Accepted\nPOSTCONDITION Report\nCHECK_DEADLOCK FALSE\n"
 	}
 	return name, mod, cfg
 }
